@@ -125,6 +125,8 @@ def save_trace(tid, rng, root: Path, nsaves):
         if use_save and "/" in name:
             name = "plain"
         out = random_output(rng, name, finite=use_save)
+        ds, df = tk.mat(out.data)                  # what is handed to the save, recorded BEFORE the call
+        as_, af = tk.mat(out.actions)
         exc = ""
         try:
             if use_save:
@@ -135,8 +137,6 @@ def save_trace(tid, rng, root: Path, nsaves):
             exc = type(ex).__name__
         if name not in metas:
             metas[name] = expected_meta(out.parsed_args)
-        ds, df = tk.mat(out.data)
-        as_, af = tk.mat(out.actions)
         readable, recs = read_file(path, tk, metas)
         events.append({"op": "save" if use_save else "save_json", "name": name, "exc": exc, "readable": readable, "produced_same": -1,
                        "entry": {"dshape": ds, "dflat": df, "ashape": as_, "aflat": af}, "file": recs})
@@ -153,9 +153,13 @@ def command_trace(tid, rng, root: Path, seed):
     path = root / "data.json"
     captured = {}
 
-    def fake_save(model_path, unique_name, output):     # harness-side stand-in for the plot savers: only data.json is written
+    def fake_save(model_path, unique_name, output):     # records what the command hands over (before any saver runs), then the real save()
         captured["output"] = output
-        save_json(model_path / "data.json", unique_name, output)
+        captured["snapshot"] = (np.array(output.data, dtype=np.float64, copy=True), np.array(output.actions, dtype=np.float64, copy=True))
+        try:
+            save(model_path, unique_name, output)
+        except FileExistsError:
+            pass                                        # a repeated name in the per-run plot directory: data.json is what matters
 
     real_eval, real_greedy, real_best = SO.evaluate, GR.get_greedy_rewards, BS.get_best_exploitability
 
@@ -174,7 +178,7 @@ def command_trace(tid, rng, root: Path, seed):
             gen = rng.choice(["factory", "noisy_factory", "graph_random", "xos"])
             cls = "superadditive" if not gen.startswith("xos") else rng.choice(["superadditive", "sam_apx_1"])
             inst = ModelInstance(number_of_players=3, game_class=cls, game_generator=gen, gap_function=rng.choice(["exploitability", "l1_norm", "l2_norm"]),
-                                 run_steps_limit=rng.randint(1, 3), model_dir=root, unique_name=name, seed=seed + j, parallel_environments=1)
+                                 run_steps_limit=rng.randint(1, 4 if cmd == "best_states" else 3), model_dir=root, unique_name=name, seed=seed + j, parallel_environments=1)
             ns = Namespace(func=print, solver=rng.choice(["greedy", "largest", "random"]), solve_repetitions=rng.randint(1, 4),
                            sampling_repetitions=rng.randint(1, 3), eval_repetitions=rng.randint(1, 2), model_dir=root, unique_name=name, seed=seed + j)
             captured.clear()
@@ -186,6 +190,7 @@ def command_trace(tid, rng, root: Path, seed):
             out = captured.get("output")
             produced_same = -1
             if out is not None:
+                out = Output(captured["snapshot"][0], captured["snapshot"][1], out.parsed_args)
                 if cmd == "solve":
                     ex_, act = captured["eval"][-1]
                     produced_same = int(np.array_equal(out.data, ex_, equal_nan=True) and np.array_equal(out.actions, act, equal_nan=True))
